@@ -96,7 +96,14 @@ def source_sets(sc):
     silent3 = "zzz-nothing-datable-in-here-but-a-long-name.log"
     with open(os.path.join(d2, silent3), "wb") as f:
         f.write(b"plain words\n" * 5)
+    # a text log of several blocks at the default block size (lines that lie across a block end are written in two pieces)
+    with open(os.path.join(d2, "big.log"), "wb") as f:
+        for i in range(1300):
+            f.write(b"2023-04-02T07:06:%02d.%03d+00:00 src=G idx=%d %s\n" % (40 + i // 100, (i % 100) * 10, i, b"g" * (60 + (i * 37) % 150)))
+            if i % 9 == 4:
+                f.write(b"   second line of idx=%d %s\n" % (i, b"s" * (i % 120)))
     sets.append((d2, ["b.log", "u.journal", "long.log", silent3], []))
+    sets.append((d2, ["big.log", "b.log"], []))
     # S3: messages with EMPTY lines inside them: every journal entry in the export rendering ends with one; a text message
     # with blank continuation lines (one, two in a row, one at its very end)
     with open(os.path.join(d2, "blank.log"), "wb") as f:
